@@ -17,6 +17,8 @@ RULE = ("Schema values with `properties` over <= 6 names and a PropertyOrder lis
 RULE += (". Widened (~8% of the random half): 1..2 of the properties hold a NIL *Schema (what Unmarshal of \"properties\":{\"y\":null} "
          "produces; Marshal writes null): the name is a key of the Properties map all the same, so it is emitted at its PropertyOrder "
          "position when listed and among the ascending rest otherwise — judged like every other name, against the statement and the model")
+RULE += ("; ~3% of the stream: WIDE property sets of 58..90 names with a PropertyOrder over a subset of 3..40 (or 60..70) of them and 0..2 "
+         "absent names")
 NAMES = ["b", "a", "d", "c", "é", "Z", "aa", "", "first", "first name", "first!", "x<y", "x=y", "a\"b", "a#", "a\\b", "a]b", "a\tb",
          "a b", "A", "&", "<", ">", "\u2028", "~", "{", "a&b", "a>b", "a\u007fb", "\u00e9a", "e\u0301", "\U0001F600", "\uFFFD"]
 
@@ -146,6 +148,21 @@ def _gen(rng, tier, n):
             props = list(dict.fromkeys(props + rng.sample(order, rng.randint(0, min(6, len(order))))))
             ops.append({"op": "marshal", "args": {"desc": mk(props, order, None)},
                         "meta": {"props": props, "order": order, "nt": len(props) >= 2, "nested": None, "long": True}})
+            continue
+        if rng.random() < 0.06:
+            # WIDE property sets (58..90 names, on both sides of 64) with an order that lists a subset of them (3..40 entries, now and
+            # then 60..70: more entries than a machine word has bits), names of every rank in the ascending order among the listed ones,
+            # a few absent names: no name twice, the listed ones first in that order, the rest ascending
+            m = rng.randint(58, 90)
+            wide = list(dict.fromkeys(props + ["w%02d" % i for i in rng.sample(range(99), min(99, m))]))[:m]
+            rng.shuffle(wide)
+            k = rng.randint(60, 70) if rng.random() < 0.15 else rng.randint(3, 40)
+            order = rng.sample(wide, min(k, len(wide)))
+            for _ in range(rng.choice([0, 0, 1, 2])):
+                order.insert(rng.randint(0, len(order)), rng.choice(["zz", "q", "w100", "A0"]))
+            order = list(dict.fromkeys(order))
+            ops.append({"op": "marshal", "args": {"desc": mk(wide, order, None)},
+                        "meta": {"props": wide, "order": order, "nt": True, "nested": None, "wide": True}})
             continue
         nested = rng.choice(props) if props and rng.random() < 0.3 else None
         nil = [k for k in rng.sample(props, min(len(props), rng.randint(1, 2))) if k != nested] if props and rng.random() < 0.08 else []
